@@ -350,7 +350,6 @@ func RunSync(spec SyncSpec, after func(a *exh.Node)) (obs SyncObs) {
 		lowBefore = append(lowBefore, a.HeaderAt(h).ID)
 	}
 	dumpBeforeKV := a.Dump()
-	dumpBefore := exh.Digest(dumpBeforeKV)
 	ctx, cancel := context.WithTimeout(context.Background(), 25*time.Second)
 	defer cancel()
 	sctx := &csync.SyncContext{Ctx: ctx, Block: clone(b.Tip()), FinalizedBlockHeader: finHeader, PeerID: connB.Peer.ID(), CurrentValidators: vals}
@@ -405,13 +404,29 @@ func RunSync(spec SyncSpec, after func(a *exh.Node)) (obs SyncObs) {
 			obs.TempAfter = append(obs.TempAfter, [2]uint64{uint64(t.Header.Height), cd.of(t.Header.ID)})
 		}
 	}
+	// byte-identical up to what finality legitimately changes: blocks applied and removed again may have advanced the
+	// finalized height (never rolled back, key 1b) which prunes the state diffs (prefix 33) at or below it
 	dumpAfterKV := a.Dump()
-	obs.DBEqual = exh.Digest(dumpAfterKV) == dumpBefore
-	if !obs.DBEqual && fmt.Sprint(obs.After) == fmt.Sprint(obs.Before) {
-		for i, k := range exh.DiffKeys(dumpBeforeKV, dumpAfterKV) {
-			if i < 8 {
-				obs.DBDiff = append(obs.DBDiff, k)
+	finAfter, _ := a.Finalized()
+	present := map[string]bool{}
+	for _, kv := range dumpAfterKV {
+		present[kv.K] = true
+	}
+	obs.DBEqual = true
+	for _, k := range exh.DiffKeys(dumpBeforeKV, dumpAfterKV) {
+		if k == "1b" {
+			continue
+		}
+		if strings.HasPrefix(k, "33") && len(k) == 10 && !present[k] {
+			var h uint64
+			fmt.Sscanf(k[2:], "%x", &h)
+			if uint32(h) <= finAfter {
+				continue
 			}
+		}
+		obs.DBEqual = false
+		if len(obs.DBDiff) < 8 {
+			obs.DBDiff = append(obs.DBDiff, k)
 		}
 	}
 	for h := uint32(0); h <= fin; h++ {
